@@ -293,6 +293,26 @@ pub(crate) fn cross_table_lookup_data<'a, F: RichField, const D: usize, const N:
                 challenge,
                 constraint_degree,
             );
+            #[cfg(feature = "verif_hooks")]
+            let (helper_zs_looking, z_looked) = {
+                let (mut helper_zs_looking, mut z_looked) = (helper_zs_looking, z_looked);
+                if let Some(which) = crate::verif_hooks::knobs::ctl_balance() {
+                    let looking_total: F = helper_zs_looking
+                        .iter()
+                        .map(|(_, hz)| hz[hz.len() - 1].values[0])
+                        .sum();
+                    let diff = z_looked[0].values[0] - looking_total;
+                    if which == 0 {
+                        if let Some((_, hz)) = helper_zs_looking.first_mut() {
+                            let last = hz.len() - 1;
+                            hz[last].values.iter_mut().for_each(|v| *v += diff);
+                        }
+                    } else {
+                        z_looked[0].values.iter_mut().for_each(|v| *v -= diff);
+                    }
+                }
+                (helper_zs_looking, z_looked)
+            };
 
             for (table, helpers_zs) in helper_zs_looking {
                 let num_helpers = helpers_zs.len() - 1;
